@@ -65,9 +65,12 @@ DisB == << <<0, 1, 1>>, <<1, 2, 1>>, <<2, 3, 1>> >>
 Hyd == <<Atom(T("H0"), TH, 1000), Atom(T("O1"), T("O"), -500), Atom(T("HO"), TH, 250), Atom(T("C1"), TC, 10),
          Atom(T("HC"), TH, 20), Atom(T("HA"), TH, 1), Atom(T("HB"), TH, 2)>>
 HydB == << <<1, 2, 1>>, <<1, 3, 1>>, <<3, 4, 1>>, <<5, 6, 1>> >>
+\* amine: hydrogen on nitrogen stays (HD), hydrogen on the neighbouring carbon goes
+Amn == <<Atom(T("C1"), TC, 10), Atom(T("N1"), T("N"), -20), Atom(T("HN"), TH, 30), Atom(T("C2"), TC, 40), Atom(T("HC"), TH, 5)>>
+AmnB == << <<0, 1, 1>>, <<1, 2, 1>>, <<1, 3, 1>>, <<3, 4, 1>> >>
 BadH == << <<1, 2, 1>>, <<2, 3, 1>> >>                  \* HO between O1 and C1: two bonds
 
-Molecules == { <<Eth, EthB>>, <<Chn, ChnB>>, <<Rng, RngB>>, <<Aro, AroB>>, <<Dis, DisB>>, <<Hyd, HydB>> }
+Molecules == { <<Eth, EthB>>, <<Chn, ChnB>>, <<Rng, RngB>>, <<Aro, AroB>>, <<Dis, DisB>>, <<Hyd, HydB>>, <<Amn, AmnB>> }
 RotModes == {"none", "rigid", "all"}
 Roots(n) == {<<>>} \cup {<<r>> : r \in 0..(n - 1)}
 MolInputs ==
